@@ -141,6 +141,14 @@ def _is_scoped_override(m: Module, f: Optional[FunctionInfo], store, flag: str, 
             for n in ast.walk(st):
                 if isinstance(n, ast.Assign):
                     tv = _pairs(n)
+                    # a, b = saved   with   saved = (x, y): pair the targets with the saved components position by position
+                    if len(n.targets) == 1 and isinstance(n.targets[0], (ast.Tuple, ast.List)) and isinstance(n.value, ast.Name):
+                        saved = [d for d in defs.defs.get(n.value.id, []) if isinstance(d, (ast.Tuple, ast.List))]
+                        if len(saved) == 1 and len(saved[0].elts) == len(n.targets[0].elts):
+                            tv = list(zip(n.targets[0].elts, saved[0].elts))
+                            for t, v in tv:
+                                if is_flag(t) and not is_flag(v) and isinstance(v, ast.Attribute) and isinstance(v.value, ast.Name) and v.value.id in aliases:
+                                    return False     # restored from the saved value of a *different* flag
                     for t, v in tv:
                         if is_flag(t) and v is not None:
                             r = defs.roots(v)
